@@ -586,9 +586,10 @@ def check_law(A, B, e, law, svA, svB, report, tolc=3e-6):
     if law["cov"] == "sigma" and svB.params["sigma-act"] == svA.params["sigma-act"]:
         # weights scale with sigma-apr^2, cofactors with its inverse: covariances (m0^2 Q) do not depend on sigma-apr,
         # neither with the a priori nor with the a posteriori reference deviation
+        cscale = max([abs(v) for v in A["cov"].values()] + [1e-12])          # structurally zero covariances are rounding noise
         for key, v in A["cov"].items():
             w = B["cov"].get(key)
-            if w is not None and not rel(v, w, 5e-5, 1e-12):
+            if w is not None and not rel(v, w, 5e-5, 1e-9 * cscale):
                 report("sigma", "covariance %s must not depend on sigma-apr: %r -> %r" % (key, v, w))
                 break
 
